@@ -2,6 +2,7 @@
    store generates and the verdicts of the real verifiers against the model, run with the
    executable SHA-256 *)
 From V Require Export Base.Hex Merkle.Sha256 Proofs.History Proofs.Fixed Proofs.Gen.
+From V Require Import Proofs.CompleteFull.
 (* the _refuted witnesses of the known findings are re-checked whenever the model changes *)
 From V Require Import Proofs.Refuted.
 
@@ -138,13 +139,14 @@ Definition group_mismatches (v2 : bool) (base : dcall) (vs : list (list edit * r
   mismatches (fun v => res_eqb Bool.eqb (run_call v2 (fold_left apply_edit (fst v) base)) (snd v)) 0 vs.
 
 (* the honest proofs of Proofs/Gen.v (about which completeness is proved) against what the store
-   generates; the consistency terms are taken from the store's proof (their generator is not modelled) *)
+   generates (gen_dual_proof_full: consistency terms = cons_ref of coq/Merkle) *)
 Definition lin_eqb (a b : option linear_proof) : bool :=
   opt_eqb (fun x y => (lp_src x =? lp_src y) && (lp_tgt x =? lp_tgt y) && lbytes_eqb (lp_terms x) (lp_terms y)) a b.
 Definition lap_eqb (a b : option linear_advance_proof) : bool :=
   opt_eqb (fun x y => lbytes_eqb (lap_terms x) (lap_terms y) && list_eqb lbytes_eqb (lap_incls x) (lap_incls y)) a b.
 Definition dual_gen_ok (hs : list txhdr) (i j : N) (p : dual_proof) : bool :=
-  let g := gen_dual_proof Hs hs (dp_cons p) i j in
+  let g := gen_dual_proof_full Hs hs i j in
+  lbytes_eqb (dp_cons g) (dp_cons p) &&
   opt_eqb (fun x y => h_id x =? h_id y) (dp_src g) (dp_src p) &&
   opt_eqb (fun x y => h_id x =? h_id y) (dp_tgt g) (dp_tgt p) &&
   lbytes_eqb (dp_incl g) (dp_incl p) && bytes_eqb (dp_tblalh g) (dp_tblalh p) &&
